@@ -105,7 +105,11 @@ class ResetOperation:
         )
 
     def replace_params(self, new_params: Tuple[Parameter, ...]) -> "ResetOperation":
-        return replace(self, params=new_params)
+        # `dataclasses.replace` would call `__init__(params=...)`, which this class
+        # overrides to take the qubit index instead.
+        result = ResetOperation(self.qubit_indices[0])
+        result.params = new_params
+        return result
 
     def apply(self, amplitude_vector: ParameterizedVector) -> ParameterizedVector:
         raise RuntimeError(
